@@ -334,7 +334,12 @@ func (m *Machine) run(harness *ssa.Function) (end pathEnd) {
 	}
 	m.initDone = true
 	m.funcsSeen = map[*ssa.Function]bool{}
-	m.pushFrame(main, harness, nil, nil, -1)
+	if m.selfTestArg {
+		// a Test function: its *testing.T argument is an opaque non-nil pointer
+		m.pushFrame(main, harness, nil, []Value{&Cell{v: StructV{}}}, -1)
+	} else {
+		m.pushFrame(main, harness, nil, nil, -1)
+	}
 	m.runLoop()
 	return pathEnd{"done", ""}
 }
